@@ -390,6 +390,11 @@ class Kernel:
                 del content["execution_count"], content["status"]
                 await self.send(self.iopub_socket, "error", content, parent_header=msg["header"])
 
+                # as on the success path: stdout of the cell goes out before the idle status
+                handshake_q = asyncio.Queue(0)
+                await self.housekeep_q.put(["handshake", handshake_q, 0])
+                await handshake_q.get()
+
                 content = {
                     "execution_state": "idle",
                 }
